@@ -1,4 +1,6 @@
 import DuneVerif.Model.C17
+import DuneVerif.Gen.C17RT
+import DuneVerif.Gen.C17Vec
 import DuneVerif.Common.Proto
 /-! line-protocol driver for C17 (see harness/cxx_c17.cc for the op lines)
 
@@ -255,6 +257,25 @@ def handle (line : String) : String :=
         if !(rtInRange ity v) then "skip" else
         s!"round={roundM ity s r FP.trunc v e} trunc={showTrunc (truncUnrepFP ity s r v e) (truncM ity s r FP.trunc v e)}"
       else "bad-op"
+    | _, _, _, _ => "bad-op"
+  | [op, t, it, kind, st, rs, vs, e] =>
+    -- round / trunc of a std::vector / FieldVector: the regenerated component loops (Gen/C17Vec.lean) around roundM / truncM
+    if op != "fvround" && op != "fvtrunc" then "bad-op" else
+    match parseFmt? t, parseRTType? it, parseStyle? st, parseRStyle? rs with
+    | some f, some ity, some s, some r =>
+      match parseFPList? f vs, parseEpsFP? f t s e with
+      | some vs, some e =>
+        if kind != "std" && !(kind == "fv" && (vs.length == 1 || vs.length == 2 || vs.length == 3 || vs.length == 5)) then "bad-op" else
+        if !(vs.all (rtInRange ity)) then "skip" else
+        let rT : Style → RStyle → FP f → FP f → Int := fun s r x e => roundM ity s r FP.trunc x e
+        let tT : Style → RStyle → FP f → FP f → Int := fun s r x e => truncM ity s r FP.trunc x e
+        if op == "fvround" then
+          showList ((if kind == "std" then GenVec.round_std_vec rT tT s r vs e else GenVec.round_fvec rT tT s r vs e).map toString)
+        else
+          let res := if kind == "std" then GenVec.trunc_std_vec rT tT s r vs e else GenVec.trunc_fvec rT tT s r vs e
+          if res.length != vs.length then "size-mismatch" else
+          showList (List.zipWith (fun x t => showTrunc (truncUnrep ity s r FP.trunc x e) t) vs res)
+      | _, _ => "bad-op"
     | _, _, _, _ => "bad-op"
   | [op, t, it, st, rs, v, e] =>
     if op == "fround" || op == "ftrunc" then
